@@ -1238,6 +1238,8 @@ from mlmverif.selfcheck import B, OK  # noqa: E402
 
 _F = 'chainables/io.py'
 VARIANTS = [
+    OK('recorded-position-in-two-steps', 'chainables/io.py',
+       "    start_index = self._index - self.config.start + self.config.state.start_index\n", "    read_in_shard = self._index - self.config.start\n    start_index = read_in_shard + self.config.state.start_index\n"),
     B('read-fallback-for-listed-error-types-only', 'utils/iter_utils.py',
       "        self.i += batch_size\n      except Exception as e:  # pylint: disable=broad-exception-caught", "        self.i += batch_size\n      except (ValueError, TypeError, IndexError, NotImplementedError) as e:", 'R-C09-19'),
     B('parent-chain-excluded-from-state-equality', 'chainables/io.py',
